@@ -57,10 +57,43 @@ def res_equal(a, b, metrics, ordered=False):
         d = summ_equal(a[g], b[g], metrics, ordered=ordered)
         if d:
             return f"group {g}: {d}"
+        if "dict_keys" in a[g] and "dict_keys" in b[g] and a[g]["dict_keys"] != b[g]["dict_keys"]:
+            ka, kb = a[g].get("dict_keys"), b[g].get("dict_keys")
+            diff = sorted(set(ka) ^ set(kb)) if isinstance(ka, list) and isinstance(kb, list) else [ka, kb]
+            return f"group {g}: the keys of the reported dictionary differ: {diff}"
         for k in a[g]:
             if k.startswith("global_bin") and not (isinstance(a[g][k], str) or isinstance(b[g][k], str)) and not same_value(a[g][k], b[g][k]):
                 return f"group {g}: {k}: {a[g][k]} vs {b[g][k]}"
     return None
+
+
+impl.DICT_KEYS = True
+_BASE = []          # the default evaluator's report taken before this check constructed anything (first statement of run / search / replay)
+
+
+def default_evaluator_report():
+    """zero-TP scenes (empty prediction, empty reference, both empty, disjoint) under `Panoptica_Evaluator(expected_input=MATCHED)`, nothing else given"""
+    z = np.zeros((3, 6), np.uint8)
+    a = z.copy()
+    a[0:2, 0:2] = 1
+    b = z.copy()
+    b[1:3, 4:6] = 2
+    out = {}
+    try:
+        with quiet(), np.errstate(all="ignore"):
+            ev = impl.Panoptica_Evaluator(expected_input=impl.INPUT["MATCHED"])
+            for name, (p, r) in (("empty_pred", (z, a)), ("empty_ref", (a, z)), ("both_empty", (z, z)), ("disjoint", (a, b))):
+                res = ev.evaluate(p, r)["ungrouped"][0]
+                for k in ("tp", "fp", "fn", "sq", "sq_dsc", "sq_assd", "sq_rvd", "sq_std", "pq", "rq"):
+                    try:
+                        v = getattr(res, k)
+                    except Exception as e:
+                        v = "ERR:" + type(e).__name__
+                    out[f"{name}.{k}"] = "nan" if isinstance(v, float) and v != v else v
+            out["keys"] = list(ev.resulting_metric_keys)
+    except Exception as e:
+        out["raised"] = type(e).__name__
+    return out
 
 
 def one_history(ctx, src):
@@ -70,6 +103,19 @@ def one_history(ctx, src):
     os.makedirs(d)
     specs = mk_cfgs(rng)
     evs, keys0, yaml0, mops, log = [], [], [], [], []
+    # what an evaluator with nothing but defaults reports for the zero-TP scenes, before anything else exists in this history
+    dflt0 = _BASE[0] if _BASE else default_evaluator_report()
+    # somebody else's handlers: a partial table and a full one, both unlike the defaults (constructed, never used here)
+    with quiet():
+        impl.EdgeCaseHandler(listmetric_zeroTP_handling={impl.METRICS["DSC"]: impl.MetricZeroTPEdgeCaseHandling(default_result=impl.EDGE["ONE"])},
+                             empty_list_std=impl.EDGE["ZERO"])
+        impl.mk_handler({"table": [[m, {"NO_INSTANCES": "ONE", "EMPTY_PRED": "ONE", "EMPTY_REF": "INF", "NORMAL": "ONE"}] for m in ("DSC", "IOU", "ASSD", "RVD", "clDSC")],
+                         "empty_list_std": "ONE", "form": "full"})
+    dflt_mid = default_evaluator_report()
+    if dflt_mid != dflt0:
+        diff = [k for k in dflt0 if dflt0[k] != dflt_mid.get(k)][:3]
+        ctx.violation(f"after two handlers with other settings were merely constructed, a freshly constructed evaluator with default arguments reports something else: "
+                      f"{[(k, dflt0[k], dflt_mid.get(k)) for k in diff]}", {"specs": [], "ops": [["foreign-handlers"]], "src": src}, key={"kind": "history-dependent"})
     try:
         with quiet():
             for k, (cfg, groups, gm, sgt) in enumerate(specs):
@@ -181,6 +227,11 @@ def one_history(ctx, src):
                                   impl={"before": yaml0[k][-300:], "after": y[-300:]}, key={"kind": "config-changed"})
                     yaml0[k] = y
         inp = {"specs": [[c, g, m, s] for c, g, m, s in specs], "ops": log, "src": src}
+        dflt1 = default_evaluator_report()
+        if dflt1 != dflt0:
+            diff = [k for k in dflt0 if dflt0[k] != dflt1.get(k)][:3]
+            ctx.violation(f"a freshly constructed evaluator with default arguments reports something else after other evaluators / handlers were constructed and used: "
+                          f"{[(k, dflt0[k], dflt1.get(k)) for k in diff]}", inp, key={"kind": "history-dependent"})
         ctx.case(inp, nontriv, sample={"ops": [o[:2] for o in log]})
         ctx.count(f"evaluators.{len(evs)}")
         for o in log:
@@ -290,6 +341,8 @@ def construction_cases(ctx, n):
 
 
 def run(ctx):
+    if not _BASE:
+        _BASE.append(default_evaluator_report())
     construction_cases(ctx, ctx.scale(40, 400))
     for i in range(ctx.scale(60, 800)):
         one_history(ctx, f"rand{i}")
@@ -298,17 +351,24 @@ def run(ctx):
 
 
 def search(ctx):
+    if not _BASE:
+        _BASE.append(default_evaluator_report())
     for i in range(ctx.scale(150, 600)):
         one_history(ctx, f"search{i}")
 
 
 def replay(ctx, rec):
+    if not _BASE:
+        _BASE.append(default_evaluator_report())
     i = rec["input"]
     if i.get("kind") == "pool" and i.get("mode") is None:
         dt = np.dtype(i.get("dtype", "uint8"))
         pool_one(ctx, np.array(i["pred"], dtype=dt).reshape(i["shape"]), np.array(i["ref"], dtype=dt).reshape(i["shape"]), i["cfg"])
         return
     if i.get("kind") == "pool":
+        return
+    if i.get("ops") == [["foreign-handlers"]]:
+        one_history(ctx, "replay")
         return
     if i.get("kind") == "construction":
         construction_cases(ctx, 40)
